@@ -17,7 +17,11 @@
 use bytes::BytesMut;
 use rtcverif::refimpl::{RefProfile, RefSrtp, ref_accepts_shape};
 use rtcverif::*;
-use rustrtc::rtp::{RtpHeader, RtpHeaderExtension, RtpPacket};
+use rustrtc::rtp::{ReceiverReport, ReportBlock, RtcpPacket, RtpHeader, RtpHeaderExtension, RtpPacket, marshal_rtcp_packets};
+use rustrtc::transports::PacketReceiver;
+use rustrtc::transports::ice::conn::IceConn;
+use rustrtc::peer_connection::RtpObserver;
+use rustrtc::transports::rtp::RtpTransport;
 use rustrtc::srtp::{SrtpKeyingMaterial, SrtpPacket, SrtpProfile, SrtpSession};
 use serde_json::{Value, json};
 use std::collections::{BTreeMap, HashMap};
@@ -175,6 +179,22 @@ fn gen_rtcp(rng: &mut Rng, ssrc: u32, small: bool) -> Vec<u8> {
     p
 }
 
+/// A receiver report the stack's own RTCP codec produces (transport mode: the RTCP listener gets parsed packets).
+fn gen_rr(rng: &mut Rng, ssrc: u32) -> Vec<u8> {
+    let blocks = (0..rng.below(3))
+        .map(|_| ReportBlock {
+            ssrc: rng.next() as u32,
+            fraction_lost: rng.next() as u8,
+            packets_lost: (rng.below(1 << 23)) as i32,
+            highest_sequence: rng.next() as u32,
+            jitter: rng.next() as u32,
+            last_sender_report: rng.next() as u32,
+            delay_since_last_sender_report: rng.next() as u32,
+        })
+        .collect();
+    marshal_rtcp_packets(&[RtcpPacket::ReceiverReport(ReceiverReport { sender_ssrc: ssrc, report_blocks: blocks })]).expect("marshal RR")
+}
+
 // ------------------------------------------------------------------------------------------
 
 struct Sent {
@@ -194,6 +214,7 @@ struct World<'a> {
     rx_c: SrtpSession,
     rtx: Option<RefSrtp>,
     rrx: Option<RefSrtp>,
+    key_copy: Vec<u8>,
     salt: Vec<u8>,
     bad_key: Vec<u8>,
     ssrc_map: BTreeMap<i64, u32>,
@@ -201,6 +222,8 @@ struct World<'a> {
     store: HashMap<(bool, i64, i64), Sent>, // (is_rtcp, model ssrc, model idx)
     wire_diverged: bool,
     opendev: bool,
+    /// transport mode: packets must demultiplex as RTP / parse as RTCP inside RtpTransport
+    transport_safe: bool,
     rtcp_wire: HashMap<i64, Vec<u32>>,      // SRTCP indices the rustrtc sender used so far, per model ssrc
     small: bool,
     few: bool,
@@ -268,12 +291,14 @@ impl<'a> World<'a> {
             rx_c: new_session(p, &key, &salt),
             rtx: rp.map(|r| RefSrtp::new(r, &key, &salt).expect("ref ctx")),
             rrx: rp.map(|r| RefSrtp::new(r, &key, &salt).expect("ref ctx")),
+            key_copy: key.clone(),
             salt,
             bad_key,
             ssrc_map: BTreeMap::new(),
             fillers: Vec::new(),
             store: HashMap::new(),
             wire_diverged: false,
+            transport_safe: false,
             opendev: cfg["opendev"].as_i64() == Some(1),
             rtcp_wire: HashMap::new(),
             small,
@@ -328,7 +353,10 @@ impl<'a> World<'a> {
         let ssrc = self.ssrc(k, rng);
         let seq = self.emb.seq(i);
         let real_idx = self.emb.idx(i);
-        let pkt = gen_rtp(rng, ssrc, seq, self.small);
+        let mut pkt = gen_rtp(rng, ssrc, seq, self.small);
+        if self.transport_safe && pkt.header.marker && (64..=80).contains(&pkt.header.payload_type) {
+            pkt.header.payload_type = 96; // second byte 192..208 is demultiplexed as RTCP (rtcp-mux)
+        }
         let plain = pkt.marshal().expect("marshal");
         let mut x1 = vec![0u8; self.tx.protected_rtp_len(&pkt)];
         let r = catch(|| self.tx.protect_rtp(&pkt, &mut x1).map_err(|e| format!("{e}")));
@@ -364,7 +392,7 @@ impl<'a> World<'a> {
             self.wire_diverged = true;
         }
         let ssrc = self.ssrc(k, rng);
-        let plain = gen_rtcp(rng, ssrc, self.small);
+        let plain = if self.transport_safe { gen_rr(rng, ssrc) } else { gen_rtcp(rng, ssrc, self.small) };
         let mut x1 = plain.clone();
         let r = catch(|| self.tx.protect_rtcp(&mut x1).map_err(|e| format!("{e}")));
         self.evals += 1;
@@ -1057,6 +1085,179 @@ fn run_edge(edge: &Value, lineno: u64, pname: &str, use_ref: bool, few: bool, sm
     (w.out, stats)
 }
 
+// ------------------------------------------------------------------------------------------
+// transport mode: the same model histories through RtpTransport's receive path with the keys installed
+// ("a forged packet yields no media", "a genuine packet reaches its listener unchanged, also after forgeries").
+// C14 owns the gates (with / without session, mandatory mode, egress); here only the keyed receive path is driven,
+// with this model's forgery classes and index histories.
+
+#[derive(Default)]
+struct IngressObs {
+    seen: parking_lot::Mutex<Vec<RtpPacket>>,
+}
+impl RtpObserver for IngressObs {
+    fn on_ingress(&self, p: &RtpPacket, _src: std::net::SocketAddr) {
+        self.seen.lock().push(p.clone());
+    }
+    fn on_egress(&self, _p: &RtpPacket, _dst: std::net::SocketAddr) {}
+}
+
+struct Sinks {
+    by_ssrc: Vec<(i64, tokio::sync::mpsc::Receiver<(RtpPacket, std::net::SocketAddr)>)>,
+    prov: tokio::sync::mpsc::Receiver<(RtpPacket, std::net::SocketAddr)>,
+    rtcp: tokio::sync::mpsc::Receiver<Vec<RtcpPacket>>,
+    obs: std::sync::Arc<IngressObs>,
+}
+impl Sinks {
+    /// everything delivered since the last call: (sink, model ssrc or -1, packet / rtcp bytes)
+    fn drain(&mut self) -> Vec<(String, i64, Option<RtpPacket>, Option<Vec<u8>>)> {
+        let mut v = Vec::new();
+        for (k, rx) in self.by_ssrc.iter_mut() {
+            while let Ok((p, _)) = rx.try_recv() {
+                v.push(("listener".to_string(), *k, Some(p), None));
+            }
+        }
+        while let Ok((p, _)) = self.prov.try_recv() {
+            v.push(("provisional".to_string(), -1, Some(p), None));
+        }
+        while let Ok(pk) = self.rtcp.try_recv() {
+            v.push(("rtcp_listener".to_string(), -1, None, marshal_rtcp_packets(&pk).ok()));
+        }
+        for p in std::mem::take(&mut *self.obs.seen.lock()) {
+            v.push(("observer".to_string(), -1, Some(p), None));
+        }
+        v
+    }
+}
+
+async fn run_edge_transport(edge: &Value, lineno: u64, pname: &str, few: bool) -> (Vec<Value>, [u64; 5]) {
+    let cfg = &edge["cfg"];
+    let mut rng = Rng::from_env();
+    rng.0 ^= lineno.wrapping_mul(0xA24BAED4963EE407);
+    let _ = rng.next();
+    let mut w = World::new(pname, cfg, &mut rng, false, true, few);
+    w.transport_safe = true;
+    let (_sock_tx, sock_rx) = tokio::sync::watch::channel(None::<rustrtc::transports::ice::IceSocketWrapper>);
+    let addr = addr_of("A");
+    let conn = IceConn::new(sock_rx, addr, None);
+    let tr = std::sync::Arc::new(RtpTransport::new(conn, true));
+    let k = SrtpKeyingMaterial::new(w.key_copy.clone(), w.salt.clone());
+    tr.start_srtp(SrtpSession::new(profile_of(pname), k.clone(), k).expect("session"));
+    let (ptx, prx) = tokio::sync::mpsc::channel(4096);
+    let (rtx, rrx) = tokio::sync::mpsc::channel(4096);
+    tr.register_provisional_listener(ptx);
+    tr.register_rtcp_listener(rtx);
+    let obs = std::sync::Arc::new(IngressObs::default());
+    tr.add_observer(obs.clone());
+    let mut sinks = Sinks { by_ssrc: Vec::new(), prov: prx, rtcp: rrx, obs };
+    for s in cfg["start"].as_array().unwrap() {
+        let k = s[0].as_i64().unwrap();
+        let real = w.ssrc(k, &mut rng);
+        let (tx, rx) = tokio::sync::mpsc::channel(4096);
+        tr.register_listener_sync(real, tx);
+        sinks.by_ssrc.push((k, rx));
+    }
+    let mut mbuf = Vec::new();
+    let mut forged_before = false;
+    let mut delivered_ok = 0u64;
+    let mut silent = 0u64;
+    let mut steps: Vec<(Step, String)> = edge["pre"].as_array().unwrap().iter().enumerate().map(|(i, v)| (step_of(v), format!("pre[{i}]"))).collect();
+    steps.push((step_of(&edge["act"]), "act".to_string()));
+    // synchronised start: the genuine preamble goes through the transport too
+    let mut script: Vec<(Step, String)> = Vec::new();
+    for s in cfg["start"].as_array().unwrap() {
+        let (k, st) = (s[0].as_i64().unwrap(), s[1].as_i64().unwrap());
+        if st < 0 {
+            continue;
+        }
+        let target = w.emb.idx(st);
+        let n = if target > 65535 { (target - 65535 + 32766) / 32767 } else { 0 };
+        for j in 0..=n {
+            let real = target - (n - j) * 32767;
+            let ssrc = w.ssrc(k, &mut rng);
+            let pkt = gen_rtp(&mut rng, ssrc, (real & 0xFFFF) as u16, true);
+            let mut pkt = pkt;
+            if pkt.header.marker && (64..=80).contains(&pkt.header.payload_type) {
+                pkt.header.payload_type = 96;
+            }
+            let mut x1 = vec![0u8; w.tx.protected_rtp_len(&pkt)];
+            w.tx.protect_rtp(&pkt, &mut x1).expect("preamble protect");
+            tr.receive(bytes::Bytes::from(x1.clone()), addr, &mut mbuf).await;
+            let got = sinks.drain();
+            let ok = got.iter().any(|(sink, kk, p, _)| sink == "listener" && *kk == k && p.as_ref() == Some(&pkt));
+            w.evals += 1;
+            if !ok {
+                w.diverge("C04", "TransportDelivers", "preamble", "transport", "rtp", "", json!({"ssrc": k, "real_idx": real}));
+            }
+            if j == n {
+                let plain = pkt.marshal().unwrap();
+                w.store.insert((false, k, st), Sent { plain_rtp: Some(pkt), plain_bytes: plain, x1, x3: None, real_idx: real, shape_ok: false });
+            }
+        }
+    }
+    script.append(&mut steps);
+    for (s, wher) in script.iter() {
+        let proto = if s.rtcp { "rtcp" } else { "rtp" };
+        match s.op.as_str() {
+            "protect" if s.kind == "refused" => {}
+            "protect" => {
+                if s.rtcp { w.protect_rtcp(s.k, s.idx, if s.x >= 0 { s.x } else { s.idx }, &mut rng, wher) } else { w.protect_rtp(s.k, s.idx, if s.x >= 0 { s.x } else { s.idx }, &mut rng, wher) }
+            }
+            "deliver" => {
+                let Some(sent) = w.store.get(&(s.rtcp, s.k, s.idx)) else { panic!("deliver of a packet never protected") };
+                let (x1, orig, plain) = (sent.x1.clone(), sent.plain_rtp.clone(), sent.plain_bytes.clone());
+                tr.receive(bytes::Bytes::from(x1), addr, &mut mbuf).await;
+                let got = sinks.drain();
+                w.evals += 1;
+                let delivered: Vec<_> = got.iter().filter(|(sink, _, _, _)| sink != "observer").collect();
+                let right = if s.rtcp {
+                    delivered.len() == 1 && delivered[0].0 == "rtcp_listener"
+                } else {
+                    delivered.len() == 1 && delivered[0].0 == "listener" && delivered[0].1 == s.k && delivered[0].2 == orig
+                };
+                let demand = s.must && !s.replay && s.acc;
+                if right {
+                    delivered_ok += 1;
+                }
+                if demand && !right {
+                    let (prop, rule) = if forged_before { ("C05", "AcceptanceStable") } else { ("C04", "TransportDelivers") };
+                    w.diverge(prop, rule, wher, "transport", proto, "", json!({"field": "transport", "ssrc": s.k, "idx": s.idx,
+                        "delivered": delivered.iter().map(|d| d.0.clone()).collect::<Vec<_>>()}));
+                } else if !delivered.is_empty() && !right {
+                    // whatever is handed on for a genuine packet must be that packet, at its own listener
+                    w.diverge("C04", "TransportRoundTrip", wher, "transport", proto, "", json!({"ssrc": s.k, "idx": s.idx,
+                        "delivered": delivered.iter().map(|d| d.0.clone()).collect::<Vec<_>>()}));
+                } else if s.rtcp && right && delivered[0].3.as_deref() != Some(&plain[..]) {
+                    w.diverge("EXT", "TransportRtcpBytes", wher, "transport", proto, "", json!({"ssrc": s.k, "idx": s.idx}));
+                }
+            }
+            "forge" => {
+                forged_before = true;
+                let variants = w.forge_variants(s.rtcp, &s.kind, s.k, s.idx, s.x, &mut rng);
+                let total = (variants.len() as u64).max(if variants.is_empty() { 0 } else { s.rep });
+                for n in 0..total {
+                    let v = variants[(n as usize) % variants.len()].clone();
+                    w.variants += 1;
+                    w.evals += 1;
+                    tr.receive(bytes::Bytes::from(v.clone()), addr, &mut mbuf).await;
+                    let got = sinks.drain();
+                    if got.is_empty() {
+                        silent += 1;
+                    } else {
+                        w.diverge("C05", "NoMediaFromForgery", wher, "transport", proto, &s.kind, json!({"field": "transport", "ssrc": s.k, "presentation": n + 1,
+                            "sinks": got.iter().map(|d| d.0.clone()).collect::<Vec<_>>(), "len": v.len()}));
+                    }
+                }
+            }
+            "tick" => {}
+            o => panic!("unknown op {o}"),
+        }
+    }
+    // slots 1/2 (reference counters in session mode) carry: genuine packets delivered unchanged / forged packets that yielded nothing
+    let stats = [w.evals, delivered_ok, silent, w.variants, script.len() as u64];
+    (w.out, stats)
+}
+
 fn main() {
     quiet_panics();
     let args: Vec<String> = std::env::args().collect();
@@ -1067,6 +1268,8 @@ fn main() {
     let (mut si, mut sn) = (0u64, 1u64);
     let mut few = true;
     let mut use_ref = true;
+    let mut transport = false;
+    let rt = tokio::runtime::Builder::new_current_thread().enable_all().build().expect("runtime");
     let mut line_base = 0u64;
     let mut profiles: Vec<String> = PROFILES.iter().map(|s| s.to_string()).collect();
     let mut i = 3;
@@ -1087,6 +1290,7 @@ fn main() {
                 i += 1;
             }
             "--noref" => use_ref = false,
+            "--transport" => transport = true,
             "--lineno" => {
                 line_base = args[i + 1].parse().unwrap();
                 i += 1;
@@ -1118,7 +1322,11 @@ fn main() {
         // bit-exhaustive mode keeps packets near 60 bytes so that every position is visited
         let small = !few || e["cfg"]["small"].as_i64() == Some(1);
         for p in &profiles {
-            let r = catch(|| run_edge(e, ln, p, use_ref, few, small));
+            let r = if transport {
+                catch(|| rt.block_on(run_edge_transport(e, ln, p, few)))
+            } else {
+                catch(|| run_edge(e, ln, p, use_ref, few, small))
+            };
             match r {
                 Ok((divs, st)) => {
                     for (a, b) in tot.iter_mut().zip(st.iter()) {
